@@ -979,7 +979,10 @@ fn cmd_lifecycle(seed: u64, iters: usize, steps: usize) -> i32 {
 // ------------------------------------------------------------------------------------------------
 // C08: concurrent publishers on a multi-threaded runtime: ids are issued in acceptance order and every
 // subscription's first deliveries follow id order, each request contiguous
-async fn run_order(publishers: usize, per_request: usize) -> Result<(), Fail> {
+async fn run_order(publishers: usize, per_request: usize) -> Result<(), Fail> { run_order_with(publishers, per_request, 0).await }
+/// `busy`: that many other requests are queued on the first subscription while the publishers run, so that the posts
+/// of consecutive Publish requests wait in its mailbox together
+async fn run_order_with(publishers: usize, per_request: usize, busy: usize) -> Result<(), Fail> {
     let tm = TopicManager::new();
     let sm = SubscriptionManager::new(Default::default());
     let topic = tm.create_topic(TopicName::new("p", "t")).map_err(|_| Fail { prop: "SETUP", what: "create".into() })?;
@@ -988,6 +991,8 @@ async fn run_order(publishers: usize, per_request: usize) -> Result<(), Fail> {
         subs.push(sm.create_subscription(SubscriptionInfo::new_with_defaults(SubscriptionName::new("p", &format!("s{}", i))), Arc::clone(&topic)).await.map_err(|_| Fail { prop: "SETUP", what: "create sub".into() })?);
     }
     let mut handles = Vec::new();
+    let mut others = tokio::task::JoinSet::new();
+    for _ in 0..busy { let b = Arc::clone(&subs[0]); others.spawn(async move { let _ = b.get_stats().await; }); }
     for p in 0..publishers {
         let t = Arc::clone(&topic);
         handles.push(tokio::spawn(async move {
@@ -997,6 +1002,7 @@ async fn run_order(publishers: usize, per_request: usize) -> Result<(), Fail> {
     }
     let mut requests: Vec<Vec<u64>> = Vec::new();
     for h in handles { requests.push(h.await.map_err(|_| Fail { prop: "SETUP", what: "join".into() })?.map_err(|_| Fail { prop: "C01", what: "publish failed".into() })?); }
+    while others.join_next().await.is_some() {}
     for r in requests.iter() { for w in r.windows(2) { if w[1] <= w[0] { return Err(Fail { prop: "C08", what: format!("ids of one request not strictly increasing: {:?}", r) }); } } }
     // contiguity: no id of another request lies inside the id range of a request
     for (i, r) in requests.iter().enumerate() { for (j, q) in requests.iter().enumerate() { if i != j { for x in q { if *x > r[0] && *x < r[r.len() - 1] { return Err(Fail { prop: "C08", what: format!("id {} of a concurrent request lies inside the id range of another Publish request {:?}", x, r) }); } } } } }
@@ -1093,7 +1099,38 @@ fn race_creates(names: usize, threads: usize, handle: &tokio::runtime::Handle) -
     Ok(())
 }
 
+/// the subscription applies the posts in its mailbox in the order in which they were put there: three posts, each
+/// `post_messages` call returning before the next is made (what the topic actor does for consecutive Publish requests),
+/// all three waiting in the mailbox before the actor runs
+async fn run_mailbox_order(sizes: &[u32]) -> Result<(), Fail> {
+    let tm = TopicManager::new();
+    let sm = SubscriptionManager::new(Default::default());
+    let topic = tm.create_topic(TopicName::new("p", "mb")).map_err(|_| Fail { prop: "SETUP", what: "create".into() })?;
+    let sub = sm.create_subscription(SubscriptionInfo::new_with_defaults(SubscriptionName::new("p", "mb")), Arc::clone(&topic)).await.map_err(|_| Fail { prop: "SETUP", what: "create sub".into() })?;
+    let mut next = 0u32;
+    let mut want: Vec<u64> = Vec::new();
+    for n in sizes {
+        let batch: Vec<Arc<TopicMessage>> = (0..*n).map(|_| { next += 1; let mut m = TopicMessage::new(Bytes::from(next.to_be_bytes().to_vec()), None); m.publish(MessageId::new(77, next), std::time::SystemTime::now()); want.push(m.id.value); Arc::new(m) }).collect();
+        sub.post_messages(batch).await.map_err(|_| Fail { prop: "SETUP", what: "post".into() })?;
+    }
+    let mut got: Vec<u64> = Vec::new();
+    for _ in 0..50 {
+        let p = sub.pull_messages(1000).await.map_err(|_| Fail { prop: "SETUP", what: "pull".into() })?;
+        got.extend(p.iter().map(|m| m.message().id.value));
+        if got.len() >= want.len() { break; }
+        tokio::task::yield_now().await;
+    }
+    if got.len() != want.len() { return Err(Fail { prop: "C01", what: format!("{} of {} posted messages were delivered", got.len(), want.len()) }); }
+    if got != want { return Err(Fail { prop: "C08", what: format!("posts of {:?} messages handed to the subscription one after the other (each accepted before the next was made): first deliveries {:?}, posted in the order {:?}", sizes, got.iter().map(|x| x & 0xffff_ffff).collect::<Vec<_>>(), want.iter().map(|x| x & 0xffff_ffff).collect::<Vec<_>>()) }); }
+    Ok(())
+}
 fn cmd_order(rounds: usize) -> i32 {
+    for sizes in [vec![3u32, 2, 1], vec![1, 1], vec![1, 5, 1, 5, 1, 5, 1, 5], vec![2; 14]] {
+        if let Err(e) = tokio::runtime::Builder::new_current_thread().enable_all().build().unwrap().block_on(run_mailbox_order(&sizes)) {
+            println!("WITNESS {{\"kind\":\"order\",{},\"publishers\":1,\"observed\":{:?},\"round\":0}}", prop_json(e.prop), e.what);
+            return 1;
+        }
+    }
     let rt = tokio::runtime::Builder::new_multi_thread().worker_threads(2).enable_all().build().unwrap();
     if let Err(e) = race_creates(rounds.max(40) * 10, 4, rt.handle()) {
         println!("WITNESS {{\"kind\":\"order\",{},\"publishers\":0,\"observed\":{:?},\"round\":0}}", prop_json(e.prop), e.what);
@@ -1103,6 +1140,15 @@ fn cmd_order(rounds: usize) -> i32 {
         let res = if r % 2 == 0 { tokio::runtime::Builder::new_current_thread().enable_all().build().unwrap().block_on(run_order_big()) } else { rt.block_on(run_order_big()) };
         if let Err(e) = res {
             println!("WITNESS {{\"kind\":\"order\",{},\"publishers\":2,\"observed\":{:?},\"round\":{}}}", prop_json(e.prop), e.what, r);
+            return 1;
+        }
+    }
+    // the same with a busy subscription: on the two worker threads and on a current-thread runtime
+    for r in 0..rounds {
+        let busy = 24 + 8 * (r % 4);
+        let res = if r % 2 == 0 { rt.block_on(run_order_with(2 + r % 3, 3, busy)) } else { tokio::runtime::Builder::new_current_thread().enable_all().build().unwrap().block_on(run_order_with(2 + r % 3, 3, busy)) };
+        if let Err(e) = res {
+            println!("WITNESS {{\"kind\":\"order\",{},\"publishers\":{},\"observed\":{:?},\"round\":{},\"busy\":{}}}", prop_json(e.prop), 2 + r % 3, e.what, r, busy);
             return 1;
         }
     }
